@@ -236,6 +236,9 @@ def run(ctx):
                          (b"/find.sh\r\n", False), (b"/find.sh\tsecret words of another client\r\n", False), (b"/find.sh\r\n", False),
                          (b"GET /find.sh?searchrequest=over+http HTTP/1.0\r\n\r\n", False), (b"GET /find.sh HTTP/1.0\r\n\r\n", False),
                          (b"h /find.sh 7\r\nspartan", False), (b"h /find.sh 0\r\n", False),
+                         # lines of three parts that are not separated by single blanks (they are not Spartan requests)
+                         (b"localhost  / 0\r\n", False), (b"localhost\t/\t0\r\n", False), (b"localhost /  0\r\n", False), (b"localhost\x0b/ 0\r\n", False),
+                         (b" localhost / 0\r\n", False), (b"localhost /docs 0 \r\n", False),
                          # a Spartan length with more digits than int() converts; the ZIP handler's own index files by name
                          (b"localhost / " + b"9" * 5000 + b"\r\n", False), (b"localhost /README " + b"1" * 4301 + b"\r\n", False),
                          (b"/.cache.pygopherd.zip3.arch.zip.dat\r\n", False), (b"GET /.cache.pygopherd.zip3.arch.zip.dir HTTP/1.0\r\n\r\n", False),
